@@ -13,6 +13,7 @@ import TpmModel.Front
 import TpmModel.Cache
 import TpmModel.Print
 import TpmModel.Relax
+import TpmModel.Root
 import TpmModel.Obj
 import TpmModel.Cli
 /-! Line-protocol driver: one operation per input line, canonical observation lines + `END` per operation. -/
@@ -120,6 +121,14 @@ def handleRaw (line : String) : List String :=
   | ["DEC", mode, ty, cc, enc, hex] =>
     match parseTop ty cc enc, bytesOfHex hex with
     | some top, some bs => (marshalRun (mode == "S") Generated.msgTables top bs).lines (mode == "S")
+    | none, _ => ["X unknown-type " ++ ty]
+    | _, none => ["X bad-hex"]
+  | ["DECR", mode, ty, cc, enc, hex, root] =>
+    -- the same decode below a caller-supplied root path (`root_path=` of Binary.marshal): root = "." ++ names joined by "."
+    match parseTop ty cc enc, bytesOfHex hex with
+    | some top, some bs =>
+      let rt : Path := rootPath ++ ((root.splitOn ".").filter (· != "")).map fun n => (⟨n, none⟩ : PathNode)
+      (marshalRunAt (mode == "S") Generated.msgTables top rt bs).lines (mode == "S")
     | none, _ => ["X unknown-type " ++ ty]
     | _, none => ["X bad-hex"]
   | ["DECL", ty, cc, enc, hex] =>
